@@ -397,6 +397,15 @@ func solveStaged(r *OblResult, timeoutS int, order []int) *SolveResult {
 		}
 		pre.Status = "unknown"
 		firstDone = early
+		if len(conj) <= 1 {
+			// a goal that is not a conjunction: the local query once more, with all solvers and more time
+			pr := Solve2race(local, "", 6, order)
+			pre.Time += pr.Time
+			pre.Tried = append(pre.Tried, "local:"+strings.Join(pr.Tried, ","))
+			if pr.Status == "unsat" {
+				return &SolveResult{Status: "unsat", Solver: "local:" + pr.Solver, Time: pre.Time, Tried: pre.Tried, MaxPart: pr.Time}
+			}
+		}
 		if len(conj) > 1 {
 			// conjunct by conjunct on the local query, one second each: where the cut or the invariants carry what is
 			// needed these are tiny queries; the first that is not decided ends the attempt
@@ -419,7 +428,7 @@ func solveStaged(r *OblResult, timeoutS int, order []int) *SolveResult {
 				pr.Time = tc
 				if pr.Status != "unsat" {
 					t1 := pr.Time
-					pr = Solve2race(sc, "", 5, order)
+					pr = Solve2race(sc, "", 8, order)
 					pr.Time += t1
 				} else {
 					pr.Solver = "coi:" + pr.Solver
@@ -471,7 +480,7 @@ func solveStaged(r *OblResult, timeoutS int, order []int) *SolveResult {
 	}
 	r.Ex.buildMu.Unlock()
 	if len(conj) > 1 {
-		per := 5
+		per := 8
 		if timeoutS < per {
 			per = timeoutS
 		}
